@@ -1217,6 +1217,14 @@ class Context:
             MemoryLimitError: If memory limit is exceeded
             TimeLimitError: If time limit is exceeded
         """
+        try:
+            return self._eval(code)
+        except RecursionError:
+            # Source, or values handled by a built-in, nested deeper than the host's own
+            # stack allows: reported as the engine's limit, not as a host error
+            raise MemoryLimitError("Maximum call stack size exceeded") from None
+
+    def _eval(self, code: str) -> Any:
         # Parse the code
         parser = Parser(code)
         ast = parser.parse()
